@@ -2164,6 +2164,8 @@ def lex_tokens(line):
     if match is not None:
         value = match.group(1)
         # unicode_escape decodes bytes as latin-1: keep non-ASCII text intact
+        # (a lone backslash must not fuse with the \u escape of the character after it)
+        value = re.sub(r'(?<!\\)((?:\\\\)*)\\(?=[^\x00-\xff])', r'\1\\\\', value)
         value = value.encode('latin-1', 'backslashreplace').decode('unicode_escape')
         tokens = ['string', value]
         return LineTokens(line, tokens)
